@@ -31,9 +31,15 @@ CONSTANTS
     Wakers,       \* waker identities, a set of naturals >= 1
     MaxPost,      \* bound on non-final completions per multishot operation
     MaxRestart,   \* bound on interrupted attempts per operation
+    Bufs,         \* buffer ids of the read buffer pool (a set of naturals, {} = no pool)
+    TrackRes,     \* BOOLEAN: model the life cycle of descriptors / pool buffers carried by results
     Dev           \* enabled deviations (known findings), subset of Deviations
 
-Deviations == {"WakeParkedOnlyAfterEnter"}
+\* Kinds: "single" (e.g. write), "twostep" (zero-copy send), "multi" (multishot
+\* accept: every result is a descriptor), "fdsingle" (open/accept/socket: the
+\* result is a descriptor), "poolsingle" (read into a pool buffer), "poolmulti"
+\* (multishot read: every result is a pool buffer).
+Deviations == {"WakeParkedOnlyAfterEnter", "LeakFdOfAbandonedOp", "LoseBufOfAbandonedOp"}
 
 ASSUME Dev \subseteq Deviations
 
@@ -62,28 +68,52 @@ VARIABLES
     awoken,     \* the "awoken" bit of the polling state
     posted,     \* history: [Ops -> Seq(value)] values posted, current attempt
     delivered,  \* history: [Ops -> Seq(value)] values handed to the caller
+    res,        \* [ResVals -> state] descriptor / buffer carried by the result with that value
+    bring,      \* the buffer ring: buffer ids offered to the kernel, in order
+    vbuf,       \* [ResVals -> buffer id or -1] which buffer the kernel selected for that result
     act         \* observation record of the last action (not part of VIEW)
 
-vars == <<sq, inflight, nposted, cq, backlog, op, blocked, awoken, posted, delivered, act>>
-view == <<sq, inflight, nposted, cq, backlog, op, blocked, awoken, posted, delivered>>
+rvars == <<res, bring, vbuf>>
+vars == <<sq, inflight, nposted, cq, backlog, op, blocked, awoken, posted, delivered, res, bring, vbuf, act>>
+view == <<sq, inflight, nposted, cq, backlog, op, blocked, awoken, posted, delivered, res, bring, vbuf>>
 
-IsMulti(o)   == Kind[o] = "multi"
+IsMulti(o)   == Kind[o] \in {"multi", "poolmulti"}
 IsTwoStep(o) == Kind[o] = "twostep"
+FdKind(o)    == TrackRes /\ Kind[o] \in {"multi", "fdsingle"}
+PoolKind(o)  == Kind[o] \in {"poolsingle", "poolmulti"}
+ResKind(o)   == FdKind(o) \/ PoolKind(o)
 
 \* Unique, recognisable result values: operation * 100 + attempt * 10 + k.
 Val(o, att, k) == o * 100 + att * 10 + k
 
+\* Values that can carry a resource.
+ResVals == {Val(o, a, k) : o \in {x \in Ops : Kind[x] \in {"multi", "fdsingle", "poolsingle", "poolmulti"}},
+                           a \in 0..MaxRestart, k \in 1..(MaxPost + 1)}
+OpOfVal(v) == v \div 100
+\* Resource states: "none" not created; "kernel" created by a completion that
+\* a10 has not handed to the caller yet; "owned" an AsyncFd / ReadBuf held by
+\* the caller; "closing" close request published; "closed" / back in the
+\* buffer ring; "leaked" nobody will ever release it.
+
 OpEntry(o)     == [t |-> "op", o |-> o]
 CancelEntry(o) == [t |-> "cancel", o |-> o]
+CloseEntry(v)  == [t |-> "close", o |-> v]
 
 Cqe(ud, val, more, notif) == [ud |-> ud, val |-> val, more |-> more, notif |-> notif]
 
 NoObs == [name |-> "Init", o |-> 0, w |-> 0, k |-> "", ret |-> <<"none">>,
-          subm |-> <<>>, wakes |-> {}, frees |-> {}, blocks |-> FALSE, parked |-> FALSE, ch |-> <<>>, cqe |-> <<>>]
+          subm |-> <<>>, wakes |-> {}, frees |-> {}, blocks |-> FALSE, parked |-> FALSE, ch |-> <<>>, cqe |-> <<>>,
+          sync |-> FALSE]
 
 Obs(name, o, w, k, ret, subm, wakes, frees) ==
     [name |-> name, o |-> o, w |-> w, k |-> k, ret |-> ret, subm |-> subm,
-     wakes |-> wakes, frees |-> frees, blocks |-> FALSE, parked |-> FALSE, ch |-> <<>>, cqe |-> <<>>]
+     wakes |-> wakes, frees |-> frees, blocks |-> FALSE, parked |-> FALSE, ch |-> <<>>, cqe |-> <<>>,
+     sync |-> FALSE]
+
+\* Buffer ids in increasing order (the order ReadBufPool::new offers them in).
+RECURSIVE SetToSeq(_)
+SetToSeq(S) == IF S = {} THEN <<>>
+               ELSE LET m == CHOOSE x \in S : \A y \in S : x <= y IN <<m>> \o SetToSeq(S \ {m})
 
 Init ==
     /\ sq = <<>>
@@ -96,9 +126,27 @@ Init ==
     /\ awoken = FALSE
     /\ posted = [o \in Ops |-> <<>>]
     /\ delivered = [o \in Ops |-> <<>>]
+    /\ res = [v \in ResVals |-> "none"]
+    /\ bring = SetToSeq(Bufs)
+    /\ vbuf = [v \in ResVals |-> -1]
     /\ act = NoObs
 
 HasRoom == Len(sq) < SQN
+
+\* What happens to the resource of a result nobody will ever take: the
+\* contract says it is released; the code as written forgets it.
+Abandon(o, v, res0, bring0, vb) ==
+    IF ~ResKind(o) \/ v <= 0 \/ v \notin ResVals THEN <<res0, bring0>>
+    ELSE IF FdKind(o)
+         THEN <<[res0 EXCEPT ![v] = IF "LeakFdOfAbandonedOp" \in Dev THEN "leaked" ELSE "closed"], bring0>>
+         ELSE IF "LoseBufOfAbandonedOp" \in Dev
+              THEN <<[res0 EXCEPT ![v] = "leaked"], bring0>>
+              ELSE <<[res0 EXCEPT ![v] = "closed"], Append(bring0, vb[v])>>
+
+RECURSIVE AbandonAll(_, _, _, _, _)
+AbandonAll(o, q, res0, bring0, vb) ==
+    IF q = <<>> THEN <<res0, bring0>>
+    ELSE LET a == Abandon(o, Head(q), res0, bring0, vb) IN AbandonAll(o, Tail(q), a[1], a[2], vb)
 
 (***************************************************************************)
 (* Application actions                                                     *)
@@ -108,7 +156,7 @@ Create(o) ==
     /\ op[o].st = "new"
     /\ op' = [op EXCEPT ![o].st = "idle"]
     /\ act' = Obs("Create", o, 0, "", <<"none">>, <<>>, {}, {})
-    /\ UNCHANGED <<sq, inflight, nposted, cq, backlog, blocked, awoken, posted, delivered>>
+    /\ UNCHANGED <<sq, inflight, nposted, cq, backlog, blocked, awoken, posted, delivered, rvars>>
 
 \* First poll, or the re-submission after an interrupted attempt: publish the
 \* entry if there is room, else park the waker (op.rs 804-846).
@@ -123,30 +171,34 @@ SubmitOrPark(o, w, opRec) ==
          /\ blocked' = Append(blocked, w)
          /\ act' = Obs("Poll", o, w, "", <<"pending">>, <<>>, {}, {})
 
+\* The caller receives value v of operation o: it now owns the resource.
+Take(o, v) == IF ResKind(o) /\ v > 0 /\ v \in ResVals THEN [res EXCEPT ![v] = "owned"] ELSE res
+
 Poll(o, w) ==
     LET r == op[o] IN
     /\ r.st \in {"idle", "running", "done"}
     /\ CASE r.st = "idle" ->
               /\ SubmitOrPark(o, w, r)
-              /\ UNCHANGED <<posted, delivered>>
+              /\ UNCHANGED <<posted, delivered, rvars>>
          [] r.st = "running" /\ IsMulti(o) /\ r.q # <<>> ->
               \* Multishot: results are handed out while the operation runs, FIFO.
               /\ op' = [op EXCEPT ![o].q = Tail(r.q)]
               /\ delivered' = [delivered EXCEPT ![o] = Append(@, Head(r.q))]
+              /\ res' = Take(o, Head(r.q))
               /\ act' = Obs("Poll", o, w, "",
                             IF Head(r.q) >= 0 THEN <<"ready", Head(r.q)>> ELSE <<"err", Head(r.q)>>,
                             <<>>, {}, {})
-              /\ UNCHANGED <<sq, blocked, posted>>
+              /\ UNCHANGED <<sq, blocked, posted, bring, vbuf>>
          [] r.st = "running" /\ ~(IsMulti(o) /\ r.q # <<>>) ->
               \* Not ready: remember the most recent waker.
               /\ op' = [op EXCEPT ![o].waker = w]
               /\ act' = Obs("Poll", o, w, "", <<"pending">>, <<>>, {}, {})
-              /\ UNCHANGED <<sq, blocked, posted, delivered>>
+              /\ UNCHANGED <<sq, blocked, posted, delivered, rvars>>
          [] r.st = "done" /\ r.q = <<>> ->
               \* Only multishot: every result was handed out, end of stream.
               /\ op' = [op EXCEPT ![o].st = "complete"]
               /\ act' = Obs("Poll", o, w, "", <<"end">>, <<>>, {}, {})
-              /\ UNCHANGED <<sq, blocked, posted, delivered>>
+              /\ UNCHANGED <<sq, blocked, posted, delivered, rvars>>
          [] r.st = "done" /\ r.q # <<>> ->
               LET v    == Head(r.q)
                   rest == Tail(r.q)
@@ -156,12 +208,13 @@ Poll(o, w) ==
               THEN \* Interrupted: restart transparently with the same resources.
                    /\ SubmitOrPark(o, w, [r EXCEPT !.st = "idle", !.q = rest, !.att = @ + 1])
                    /\ posted' = [posted EXCEPT ![o] = IF IsMulti(o) THEN @ ELSE <<>>]
-                   /\ UNCHANGED delivered
+                   /\ UNCHANGED <<delivered, rvars>>
               ELSE /\ op' = [op EXCEPT ![o].st = st1, ![o].q = rest]
                    /\ delivered' = [delivered EXCEPT ![o] = Append(@, v)]
+                   /\ res' = Take(o, v)
                    /\ act' = Obs("Poll", o, w, "",
                                  IF v >= 0 THEN <<"ready", v>> ELSE <<"err", v>>, <<>>, {}, {})
-                   /\ UNCHANGED <<sq, blocked, posted>>
+                   /\ UNCHANGED <<sq, blocked, posted, bring, vbuf>>
     /\ UNCHANGED <<inflight, nposted, cq, backlog, awoken>>
 
 \* Dropping the future (op.rs 182-205).
@@ -178,14 +231,38 @@ Drop(o) ==
        ELSE /\ op' = [op EXCEPT ![o].st = "freed", ![o].waker = NoWaker, ![o].q = <<>>]
             /\ sq' = sq
             /\ act' = Obs("Drop", o, 0, "", <<"none">>, <<>>, {}, {o})
-    /\ UNCHANGED <<inflight, nposted, cq, backlog, blocked, awoken, posted, delivered>>
+    \* Results that were never taken carry resources nobody will take any more.
+    /\ LET ab == AbandonAll(o, IF r.st = "running" THEN <<>> ELSE r.q, res, bring, vbuf) IN
+          /\ res' = ab[1] /\ bring' = ab[2]
+    /\ UNCHANGED <<inflight, nposted, cq, backlog, blocked, awoken, posted, delivered, vbuf>>
+
+\* Dropping an AsyncFd: queue a close, or close synchronously if the queue is
+\* full (io_uring/fd.rs 213-233).  Dropping a ReadBuf: give the buffer back
+\* (io_uring/io.rs 166-216).
+DropRes(v) ==
+    /\ TrackRes \/ Bufs # {}
+    /\ res[v] = "owned"
+    /\ IF FdKind(OpOfVal(v))
+       THEN /\ bring' = bring
+            /\ IF HasRoom
+               THEN /\ sq' = Append(sq, CloseEntry(v))
+                    /\ res' = [res EXCEPT ![v] = "closing"]
+                    /\ act' = Obs("DropRes", v, 0, "fd", <<"none">>, <<CloseEntry(v)>>, {}, {})
+               ELSE /\ sq' = sq
+                    /\ res' = [res EXCEPT ![v] = "closed"]
+                    /\ act' = [Obs("DropRes", v, 0, "fd", <<"none">>, <<>>, {}, {}) EXCEPT !.sync = TRUE]
+       ELSE /\ sq' = sq
+            /\ res' = [res EXCEPT ![v] = "closed"]
+            /\ bring' = Append(bring, vbuf[v])
+            /\ act' = Obs("DropRes", v, 0, "buf", <<"none">>, <<>>, {}, {})
+    /\ UNCHANGED <<inflight, nposted, cq, backlog, op, blocked, awoken, posted, delivered, vbuf>>
 
 \* SubmissionQueue::wake while no poll is in progress: only sets the bit.
 Wake ==
     /\ ~awoken
     /\ awoken' = TRUE
     /\ act' = Obs("Wake", 0, 0, "", <<"none">>, <<>>, {}, {})
-    /\ UNCHANGED <<sq, inflight, nposted, cq, backlog, op, blocked, posted, delivered>>
+    /\ UNCHANGED <<sq, inflight, nposted, cq, backlog, op, blocked, posted, delivered, rvars>>
 
 (***************************************************************************)
 (* Kernel                                                                  *)
@@ -203,7 +280,10 @@ Flush(cq0, bl0) ==
 \* Completion kinds the kernel may post for an in-flight request.
 PostKinds(o) ==
     LET interrupted == IF op[o].att < MaxRestart THEN {"eintr", "ecanceled"} ELSE {} IN
-    CASE Kind[o] = "single"  -> {"ok", "err"} \cup interrupted
+    CASE Kind[o] \in {"single", "fdsingle"} -> {"ok", "err"} \cup interrupted
+      [] Kind[o] = "poolsingle" -> (IF bring # <<>> THEN {"ok"} ELSE {}) \cup {"err"} \cup interrupted
+      [] Kind[o] = "poolmulti" -> (IF nposted[o] < MaxPost /\ bring # <<>> THEN {"more"} ELSE {})
+                                  \cup (IF bring # <<>> THEN {"ok"} ELSE {}) \cup {"err"} \cup interrupted
       [] Kind[o] = "twostep" -> IF nposted[o] = 0
                                 THEN {"first", "err"} \cup interrupted
                                      \cup (IF op[o].att < MaxRestart THEN {"first_eintr"} ELSE {})
@@ -224,9 +304,14 @@ KindCqe(o, k) ==
 
 CqeObs(c) == <<c.ud, c.val, IF c.more THEN 1 ELSE 0, IF c.notif THEN 1 ELSE 0>>
 
-\* Effect of the kernel posting completion kind k for o on the kernel-side
-\* variables, given current <<cq, backlog>>.
-PostEffect(o, k, cq0, bl0) == Publish(KindCqe(o, k), cq0, bl0)
+\* A completion with a positive value creates the resource it carries: a new
+\* descriptor, or the buffer at the head of the buffer ring.
+Creates(o, c) == ResKind(o) /\ c.val > 0 /\ ~c.notif /\ c.val \in ResVals
+PostRes(o, c, res0, bring0, vbuf0) ==
+    IF ~Creates(o, c) THEN <<res0, bring0, vbuf0>>
+    ELSE IF PoolKind(o)
+         THEN <<[res0 EXCEPT ![c.val] = "kernel"], Tail(bring0), [vbuf0 EXCEPT ![c.val] = Head(bring0)]>>
+         ELSE <<[res0 EXCEPT ![c.val] = "kernel"], bring0, vbuf0>>
 
 KPost(o, k) ==
     /\ inflight[o]
@@ -238,20 +323,25 @@ KPost(o, k) ==
           /\ inflight' = [inflight EXCEPT ![o] = c.more]
           /\ nposted' = [nposted EXCEPT ![o] = IF c.more THEN @ + 1 ELSE 0]
           /\ posted' = [posted EXCEPT ![o] = IF c.notif THEN @ ELSE Append(@, c.val)]
+          /\ LET pr == PostRes(o, c, res, bring, vbuf) IN
+                /\ res' = pr[1] /\ bring' = pr[2] /\ vbuf' = pr[3]
     /\ act' = [Obs("KPost", o, 0, k, <<"none">>, <<>>, {}, {}) EXCEPT !.cqe = CqeObs(KindCqe(o, k))]
     /\ UNCHANGED <<sq, op, blocked, awoken, delivered>>
 
 \* The kernel consumes the submission queue front to back.  `ch` decides, per
 \* position, whether an asynchronous cancel that finds its target wins.
-\* State threaded through: <<inflight, nposted, cq, backlog, posted>>.
+\* State threaded through: <<inflight, nposted, cq, backlog, posted, res>>.
 RECURSIVE Consume(_, _, _, _)
 Consume(entries, i, ch, s) ==
     IF entries = <<>> THEN s
     ELSE LET e == Head(entries)
-             inf == s[1] np == s[2] cq0 == s[3] bl0 == s[4] po == s[5]
+             inf == s[1] np == s[2] cq0 == s[3] bl0 == s[4] po == s[5] rs == s[6]
          IN
          IF e.t = "op"
-         THEN Consume(Tail(entries), i + 1, ch, <<[inf EXCEPT ![e.o] = TRUE], np, cq0, bl0, po>>)
+         THEN Consume(Tail(entries), i + 1, ch, <<[inf EXCEPT ![e.o] = TRUE], np, cq0, bl0, po, rs>>)
+         ELSE IF e.t = "close"
+         THEN \* background close: succeeds silently (CQE_SKIP_SUCCESS)
+              Consume(Tail(entries), i + 1, ch, <<inf, np, cq0, bl0, po, [rs EXCEPT ![e.o] = "closed"]>>)
          ELSE \* cancel
            IF inf[e.o]
            THEN IF ch[i]
@@ -260,24 +350,24 @@ Consume(entries, i, ch, s) ==
                      LET pb == Publish(Cqe(e.o, ECANCELED, FALSE, FALSE), cq0, bl0) IN
                      Consume(Tail(entries), i + 1, ch,
                              <<[inf EXCEPT ![e.o] = FALSE], [np EXCEPT ![e.o] = 0], pb[1], pb[2],
-                               [po EXCEPT ![e.o] = Append(@, ECANCELED)]>>)
+                               [po EXCEPT ![e.o] = Append(@, ECANCELED)], rs>>)
                 ELSE LET pb == Publish(Cqe(TagCancel, EALREADY, FALSE, FALSE), cq0, bl0) IN
-                     Consume(Tail(entries), i + 1, ch, <<inf, np, pb[1], pb[2], po>>)
+                     Consume(Tail(entries), i + 1, ch, <<inf, np, pb[1], pb[2], po, rs>>)
            ELSE LET pb == Publish(Cqe(TagCancel, ENOENT, FALSE, FALSE), cq0, bl0) IN
-                Consume(Tail(entries), i + 1, ch, <<inf, np, pb[1], pb[2], po>>)
+                Consume(Tail(entries), i + 1, ch, <<inf, np, pb[1], pb[2], po, rs>>)
 
 \* a10 processes the completions in the ring in order (cq.rs 78-93, 179-240;
-\* op.rs 268-312).  State threaded through: <<op, wakes, frees>>.
+\* op.rs 268-312).  State threaded through: <<op, wakes, frees, res, bring>>.
 Store(o, q, c) ==
     IF IsMulti(o) THEN Append(q, c.val)
     ELSE IF c.notif THEN q ELSE <<c.val>>
 
-RECURSIVE Process(_, _)
-Process(cs, s) ==
+RECURSIVE Process(_, _, _)
+Process(cs, s, vb) ==
     IF cs = <<>> THEN s
-    ELSE LET c == Head(cs) ops == s[1] wakes == s[2] frees == s[3] IN
+    ELSE LET c == Head(cs) ops == s[1] wakes == s[2] frees == s[3] rs == s[4] br == s[5] IN
          IF c.ud \notin Ops
-         THEN Process(Tail(cs), s)                    \* bookkeeping completion: ignored
+         THEN Process(Tail(cs), s, vb)                    \* bookkeeping completion: ignored
          ELSE LET o == c.ud r == ops[o] IN
               IF r.st \in {"running", "done"}
               THEN LET wakeNow == (~c.more \/ IsMulti(o)) /\ r.waker # NoWaker
@@ -285,13 +375,15 @@ Process(cs, s) ==
                                        !.st = IF c.more THEN r.st ELSE "done",
                                        !.waker = IF wakeNow THEN NoWaker ELSE r.waker]
                    IN Process(Tail(cs), <<[ops EXCEPT ![o] = r2],
-                                          IF wakeNow THEN wakes \cup {r.waker} ELSE wakes, frees>>)
+                                          IF wakeNow THEN wakes \cup {r.waker} ELSE wakes, frees, rs, br>>, vb)
               ELSE IF r.st = "dropped"
-              THEN IF c.more
-                   THEN Process(Tail(cs), s)
+              THEN \* The result of an abandoned operation is never looked at.
+                   LET ab == IF c.notif THEN <<rs, br>> ELSE Abandon(o, c.val, rs, br, vb) IN
+                   IF c.more
+                   THEN Process(Tail(cs), <<ops, wakes, frees, ab[1], ab[2]>>, vb)
                    ELSE Process(Tail(cs), <<[ops EXCEPT ![o].st = "freed", ![o].q = <<>>],
-                                            wakes, frees \cup {o}>>)
-              ELSE Process(Tail(cs), s)  \* unreachable by construction (see TypeOK / RoutedOK)
+                                            wakes, frees \cup {o}, ab[1], ab[2]>>, vb)
+              ELSE Process(Tail(cs), s, vb)  \* unreachable by construction (see TypeOK / RoutedOK)
 
 SeqToSet(s) == {s[i] : i \in 1..Len(s)}
 
@@ -302,13 +394,13 @@ RingPoll(tmo, ch, blockOp, blockKind) ==
     IF cq # <<>>
     THEN \* Completions are visible: no system call, just process them.
          /\ blockOp = 0 /\ blockKind = "" /\ ch = [i \in 1..Len(sq) |-> TRUE]
-         /\ LET pr == Process(cq, <<op, {}, {}>>) IN
-            /\ op' = pr[1]
+         /\ LET pr == Process(cq, <<op, {}, {}, res, bring>>, vbuf) IN
+            /\ op' = pr[1] /\ res' = pr[4] /\ bring' = pr[5]
             /\ act' = [Obs("RingPoll", 0, 0, tmo, <<"ok">>, <<>>, pr[2], pr[3]) EXCEPT !.ch = ch]
          /\ cq' = <<>>
-         /\ UNCHANGED <<sq, inflight, nposted, backlog, blocked, awoken, posted, delivered>>
+         /\ UNCHANGED <<sq, inflight, nposted, backlog, blocked, awoken, posted, delivered, vbuf>>
     ELSE \* io_uring_enter: the kernel consumes every published entry ...
-         LET c1 == Consume(sq, 1, ch, <<inflight, nposted, cq, backlog, posted>>)
+         LET c1 == Consume(sq, 1, ch, <<inflight, nposted, cq, backlog, posted, res>>)
              fl == Flush(c1[3], c1[4])
              consumed == Len(sq)
              quick == tmo = "zero" \/ awoken          \* effective timeout is zero
@@ -319,8 +411,8 @@ RingPoll(tmo, ch, blockOp, blockKind) ==
             THEN \* ... and the call returns at once.
                  /\ blockOp = 0 /\ blockKind = ""
                  /\ LET woke == consumed > 0 \/ ~empty      \* enter returned Ok(n), not ETIME
-                        pr == Process(fl[1], <<op, IF woke THEN SeqToSet(blocked) ELSE {}, {}>>)
-                    IN /\ op' = pr[1]
+                        pr == Process(fl[1], <<op, IF woke THEN SeqToSet(blocked) ELSE {}, {}, c1[6], bring>>, vbuf)
+                    IN /\ op' = pr[1] /\ res' = pr[4] /\ bring' = pr[5] /\ vbuf' = vbuf
                        /\ blocked' = IF woke THEN <<>> ELSE blocked
                        /\ act' = [Obs("RingPoll", 0, 0, tmo, <<"ok">>, <<>>, pr[2], pr[3]) EXCEPT !.ch = ch]
                  /\ inflight' = c1[1] /\ nposted' = c1[2] /\ cq' = <<>> /\ backlog' = fl[2]
@@ -330,14 +422,14 @@ RingPoll(tmo, ch, blockOp, blockKind) ==
                  THEN \* Contract: parked futures are woken once room is available and
                       \* the call does not keep the caller blocked.
                       /\ blockOp = 0 /\ blockKind = ""
-                      /\ op' = op /\ blocked' = <<>>
+                      /\ op' = op /\ blocked' = <<>> /\ res' = c1[6] /\ bring' = bring /\ vbuf' = vbuf
                       /\ act' = [Obs("RingPoll", 0, 0, tmo, <<"ok">>, <<>>, SeqToSet(blocked), {}) EXCEPT !.ch = ch]
                       /\ inflight' = c1[1] /\ nposted' = c1[2] /\ cq' = <<>> /\ backlog' = fl[2]
                       /\ posted' = c1[5]
                  ELSE IF blockOp = 0
                  THEN \* Nothing ever completes: the call never returns.
                       /\ blockKind = ""
-                      /\ op' = op /\ blocked' = blocked
+                      /\ op' = op /\ blocked' = blocked /\ res' = c1[6] /\ bring' = bring /\ vbuf' = vbuf
                       /\ act' = [Obs("RingPoll", 0, 0, tmo, <<"blocked_forever">>, <<>>, {}, {})
                                    EXCEPT !.blocks = TRUE, !.parked = parkedRoom, !.ch = ch]
                       /\ inflight' = c1[1] /\ nposted' = c1[2] /\ cq' = <<>> /\ backlog' = fl[2]
@@ -348,8 +440,9 @@ RingPoll(tmo, ch, blockOp, blockKind) ==
                       /\ LET c  == [KindCqe(blockOp, blockKind) EXCEPT
                                       !.val = IF blockKind \in {"ok", "more", "first"}
                                               THEN Val(blockOp, op[blockOp].att, c1[2][blockOp] + 1) ELSE @]
-                             pr == Process(<<c>>, <<op, SeqToSet(blocked), {}>>)
-                         IN /\ op' = pr[1]
+                             px == PostRes(blockOp, c, c1[6], bring, vbuf)
+                             pr == Process(<<c>>, <<op, SeqToSet(blocked), {}, px[1], px[2]>>, px[3])
+                         IN /\ op' = pr[1] /\ res' = pr[4] /\ bring' = pr[5] /\ vbuf' = px[3]
                             /\ blocked' = <<>>
                             /\ act' = [Obs("RingPoll", blockOp, 0, tmo, <<"ok">>, <<>>, pr[2], pr[3])
                                          EXCEPT !.blocks = TRUE, !.parked = parkedRoom, !.w = 0,
@@ -371,6 +464,7 @@ Next ==
     \/ \E o \in Ops : Create(o)
     \/ \E o \in Ops, w \in Wakers : Poll(o, w)
     \/ \E o \in Ops : Drop(o)
+    \/ \E v \in ResVals : DropRes(v)
     \/ Wake
     \/ \E o \in Ops, k \in {"ok", "more", "first", "first_eintr", "notif", "err", "eintr", "ecanceled"} : KPost(o, k)
     \/ \E tmo \in {"zero", "none"}, ch \in CancelChoices :
@@ -460,5 +554,27 @@ CancelOnlyDropped == \A i \in 1..Len(sq) : sq[i].t = "cancel" => op[sq[i].o].st 
 NoLeakAtQuiescence ==
     \A o \in Ops : op[o].st = "dropped" =>
         \/ KernelMayAccess(o) \/ Pending(o) \/ PendingB(o)
+
+\* C07: every descriptor the kernel returned ends up owned by exactly one
+\* AsyncFd or is closed; never forgotten.  C08: likewise every pool buffer.
+NoResLeak == \A v \in ResVals : res[v] # "leaked"
+
+\* C08: each buffer is either offered to the kernel or selected/owned through
+\* exactly one result, never both and never twice.
+BufHolders(b) == {v \in ResVals : vbuf[v] = b /\ res[v] \in {"kernel", "owned", "leaked"}}
+InRing(b) == \E i \in 1..Len(bring) : bring[i] = b
+BufPartition ==
+    \A b \in Bufs :
+        /\ Cardinality(BufHolders(b)) + (IF InRing(b) THEN 1 ELSE 0) = 1
+        /\ Cardinality({i \in 1..Len(bring) : bring[i] = b}) <= 1
+
+\* C08: once no ReadBuf is alive and no operation can still deliver one, the
+\* kernel can use every buffer of the pool again.
+AllBuffersBack ==
+    (\A v \in ResVals : res[v] \notin {"kernel", "owned"}) => \A b \in Bufs : InRing(b)
+
+\* C07: a close request is published only for a descriptor that is owned, once.
+CloseOnce == \A v \in ResVals : Cardinality({i \in 1..Len(sq) : sq[i] = CloseEntry(v)}) <= 1
+                                  /\ ((\E i \in 1..Len(sq) : sq[i] = CloseEntry(v)) => res[v] = "closing")
 
 =============================================================================
